@@ -111,7 +111,7 @@ def scenarios(hp: bytes, refused: bytes, hp2: bytes = b'h2:2') -> Dict[str, Any]
     S['big-upload'] = lambda cv: [('send', b'POST http://%s/up HTTP/1.1\r\nHost: %s\r\nX-Conv: %s\r\nContent-Length: %d\r\n\r\n' % (hp, hp, cv, len(mb)) + mb),
                                   ('responses', 1, [b'POST']), ('close',)]
     S['client-reset-mid-request'] = lambda cv: [('send', get(b'/never-sent', cv)[:30]), ('advance', 5), ('reset',)]
-    S['client-closes-while-origin-silent'] = lambda cv: [('send', get(b'/never', cv)), ('advance', 30), ('close',)]
+    S['client-closes-while-origin-silent'] = lambda cv: [('send', get(b'/never', cv)), ('origin-sees', cv), ('advance', 5), ('close',)]
     return S
 
 
